@@ -5,6 +5,7 @@
   Core Lean only (no Mathlib): everything here is executable and decidable.
 -/
 import Heathcliff.Model.Evaluator
+import Heathcliff.Model.KeySwitch
 namespace HC
 
 /-- the multipliers of `translate_inplace`: (new factor, e1, e2) — (f, 1, 1) for equal correction factors (no balancing), else what
@@ -87,63 +88,81 @@ inductive LProg where
   | mul (p q : LProg)
   | mulPlain (p : LProg) (k : Nat)
   | modSwitch (p : LProg)
+  | relin (p : LProg)
   deriving Repr, DecidableEq
 
+/-- a-priori bound on the ∞-norm of the key-switching noise of one BGV relinearisation step with `dsz` digits, special prime `P`, moduli `≤ A`,
+    key errors `‖e_i‖∞ ≤ Be`, `‖s‖₁ ≤ S`:  ⌊(dsz·A·N·Be + P·t·(1 + S)) / P⌋  (`switchKey_noise_bound_bgv`) -/
+def ksNoise (P t dsz A n Be S : Nat) : Nat := (dsz * (A * (n * Be)) + P * t * (1 + S)) / P
+
+/-- does the program relinearise? (the key hypotheses of the theorem are only needed then) -/
+def LProg.usesRelin : LProg → Bool
+  | .inp _ => false
+  | .neg p | .modSwitch p | .mulPlain p _ => p.usesRelin
+  | .add p q | .sub p q | .mul p q => p.usesRelin || q.usesRelin
+  | .relin _ => true
+
 /-- evaluation: `chain c` is the level with chain index c; inputs carry their chain index -/
-def LProg.eval (chain : Nat → Level) (cts : Nat → Nat × Ct) (pls : Nat → Nat × RnsPoly) : LProg → R (Nat × Ct)
+def LProg.eval (chain : Nat → Level) (kl : KeyLevel) (rk : KSKey) (cts : Nat → Nat × Ct) (pls : Nat → Nat × RnsPoly) : LProg → R (Nat × Ct)
   | .inp i => pure (cts i)
   | .neg p => do
-    let a ← p.eval chain cts pls
+    let a ← p.eval chain kl rk cts pls
     let r ← ctNegate (chain a.1) a.2
     pure (a.1, r)
   | .add p q => do
-    let a ← p.eval chain cts pls
-    let b ← q.eval chain cts pls
+    let a ← p.eval chain kl rk cts pls
+    let b ← q.eval chain kl rk cts pls
     if a.1 ≠ b.1 then .error .refused else do
     let r ← ctTranslateBalanced (chain a.1) a.2 b.2 false
     pure (a.1, r)
   | .sub p q => do
-    let a ← p.eval chain cts pls
-    let b ← q.eval chain cts pls
+    let a ← p.eval chain kl rk cts pls
+    let b ← q.eval chain kl rk cts pls
     if a.1 ≠ b.1 then .error .refused else do
     let r ← ctTranslateBalanced (chain a.1) a.2 b.2 true
     pure (a.1, r)
   | .mul p q => do
-    let a ← p.eval chain cts pls
-    let b ← q.eval chain cts pls
+    let a ← p.eval chain kl rk cts pls
+    let b ← q.eval chain kl rk cts pls
     if a.1 ≠ b.1 then .error .refused else do
     let r ← bgvMultiply (chain a.1) a.2 b.2
     pure (a.1, r)
   | .mulPlain p k => do
-    let a ← p.eval chain cts pls
+    let a ← p.eval chain kl rk cts pls
     if a.1 ≠ (pls k).1 then .error .refused else do
     let r ← ctMultiplyPlainNtt (chain a.1) a.2 (pls k).2
     pure (a.1, r)
   | .modSwitch p => do
-    let a ← p.eval chain cts pls
+    let a ← p.eval chain kl rk cts pls
     if a.1 = 0 then .error .refused else do
     let r ← modSwitchScaleNext (chain a.1) a.2
     pure (a.1 - 1, r)
+  | .relin p => do
+    -- `relinearize_inplace` with the key for s² (`rk`, made at the key level `kl`); sizes above 3 are outside this program class
+    let a ← p.eval chain kl rk cts pls
+    if a.2.polys.size > 3 then .error .refused else do
+    let r ← relinearize kl .bgv (chain a.1).size (fun i => if i = 2 then some rk else none) 3 a.2
+    pure (a.1, r)
 
 def LProg.ctInputs : LProg → List Nat
   | .inp i => [i]
-  | .neg p | .modSwitch p => p.ctInputs
+  | .neg p | .modSwitch p | .relin p => p.ctInputs
   | .add p q | .sub p q | .mul p q => p.ctInputs ++ q.ctInputs
   | .mulPlain p _ => p.ctInputs
 def LProg.plInputs : LProg → List Nat
   | .inp _ => []
-  | .neg p | .modSwitch p => p.plInputs
+  | .neg p | .modSwitch p | .relin p => p.plInputs
   | .add p q | .sub p q | .mul p q => p.plInputs ++ q.plInputs
   | .mulPlain p k => k :: p.plInputs
 
 /-- a-priori bookkeeping (chain index, correction factor, size, bound on the ∞-norm of the phase).  `S` bounds ‖s‖₁.  Modulus switching:
     `‖v'‖ ≤ ‖v‖ / q_L + t·Σ_{k<size} S^k` (rounding term of `mod_t_and_divide_q_last` spread over the powers of the secret), factor `·q_L^{-1} mod t` -/
-def LProg.noiseUB (chain : Nat → Level) (S : Nat) (inp : Nat → Nat × Nat × Nat × Nat) (plB : Nat → Nat × Nat) :
+def LProg.noiseUB (chain : Nat → Level) (kl : KeyLevel) (A Be : Nat) (S : Nat) (inp : Nat → Nat × Nat × Nat × Nat) (plB : Nat → Nat × Nat) :
     LProg → Option (Nat × Nat × Nat × Nat)
   | .inp i => some (inp i)
-  | .neg p => p.noiseUB chain S inp plB
+  | .neg p => p.noiseUB chain kl A Be S inp plB
   | .add p q | .sub p q =>
-    match p.noiseUB chain S inp plB, q.noiseUB chain S inp plB with
+    match p.noiseUB chain kl A Be S inp plB, q.noiseUB chain kl A Be S inp plB with
     | some (l1, f1, s1, b1), some (l2, f2, s2, b2) =>
       if l1 ≠ l2 then none else
       match c02p_balance (chain l1).t f1 f2 with
@@ -151,20 +170,28 @@ def LProg.noiseUB (chain : Nat → Level) (S : Nat) (inp : Nat → Nat × Nat ×
       | none => none
     | _, _ => none
   | .mul p q =>
-    match p.noiseUB chain S inp plB, q.noiseUB chain S inp plB with
+    match p.noiseUB chain kl A Be S inp plB, q.noiseUB chain kl A Be S inp plB with
     | some (l1, f1, s1, b1), some (l2, f2, s2, b2) =>
       if l1 ≠ l2 then none else some (l1, (f1 * f2) % (chain l1).t.value, s1 + s2 - 1, (chain l1).n * b1 * b2)
     | _, _ => none
   | .mulPlain p k =>
-    match p.noiseUB chain S inp plB with
+    match p.noiseUB chain kl A Be S inp plB with
     | some (l1, f1, s1, b1) => if l1 ≠ (plB k).1 then none else some (l1, f1, s1, (chain l1).n * b1 * (plB k).2)
     | none => none
   | .modSwitch p =>
-    match p.noiseUB chain S inp plB with
+    match p.noiseUB chain kl A Be S inp plB with
     | some (l1, f1, s1, b1) =>
       if l1 = 0 then none else
       some (l1 - 1, (f1 * (chain l1).tool.invQLastModT) % (chain l1).t.value, s1,
         b1 / ((chain l1).q ((chain l1).size - 1)).value + (chain l1).t.value * geoSum S s1)
+    | none => none
+  | .relin p =>
+    match p.noiseUB chain kl A Be S inp plB with
+    | some (l1, f1, s1, b1) =>
+      if s1 = 2 then some (l1, f1, 2, b1)
+      else if s1 = 3 then
+        some (l1, f1, 2, b1 + ksNoise (kl.m (kl.ms.size - 1)).value (chain l1).t.value (chain l1).size A (chain l1).n Be S)
+      else none
     | none => none
 
 end HC
